@@ -529,3 +529,157 @@ def limit_exhausted_leaves(ctx, rule, floor=4):
                             'from it again and never stops', None, st, firm=True)
     if ctx.floor(rule, 'drivers', sites, floor, '"budget used up" tests') and ok:
         ctx.ok(rule, 'drivers', 'all %d "budget used up" branches leave their loop' % sites)
+
+
+def who_may(ctx, rule):
+    """Four "only X may do Y" facts of the guesser and trainer glue, each a whole-repository scan of call / store sites:
+
+      * the OMEN memo (`Optimizer.update`) is written only inside guess_structure.py (by _fill_out_parse_tree) - what it files under (ip, length,
+        level) is the FIRST parse tree for that key; a tree written from anywhere else is some later tree (seed C15-eb: the restored,
+        already advanced tree - strings before it are skipped by every later lookup);
+      * `print_guess` is re-bound only by PcfgGrammar.save_to_file, to write_guess_to_file (seed C17-eb: a "write each word once"
+        wrapper installed by prince_ling - suppressed words are still counted against --size);
+      * a training reader's read_password() generator is created only as the iterable of a `for` loop in run_trainer (seed C19-eb:
+        `next(file_input.read_password(), None)` to show the first password - pass 1 then starts at the second line);
+      * the guesser never names raw_grammar.txt (seed C20-eb: a fall-back to the unfiltered list when grammar.txt yields nothing)."""
+    ok = True
+    n = 0
+    for q, fn in ctx.repo.all_funcs():
+        rel, _, lname = q.partition('::')
+        mod = ctx.repo.modules[rel]
+        for c in calls_in(fn):
+            if isinstance(c.func, ast.Attribute) and c.func.attr == 'update' and 'optimizer' in U(c.func.value).lower() and rel.startswith('lib_guesser/'):
+                n += 1
+                if rel != 'lib_guesser/omen/guess_structure.py' and not rel.endswith('omen/optimizer.py'):
+                    ok = False
+                    ctx.bad(rule, q, 'the OMEN memo is written from here: ' + U(c)[:60], 'only _fill_out_parse_tree files the first parse tree of a '
+                            '(prefix, length, level) key; any other writer files a later one and every lookup then starts behind strings that '
+                            'were never generated', None, c, firm=True)
+            if isinstance(c.func, ast.Attribute) and c.func.attr == 'read_password' and rel == 'lib_trainer/run_trainer.py':
+                n += 1
+                par = mod.parents.get(id(c))
+                if not (isinstance(par, ast.For) and par.iter is c):
+                    ok = False
+                    ctx.bad(rule, q, 'read_password() called outside a for loop: ' + U(par)[:60] if par is not None else U(c),
+                            'the generator shares the file position and the counters of its reader: whatever consumes an item here takes it '
+                            'away from the pass that follows', None, c, firm=True)
+        for st in walk_local(fn):
+            tgts = st.targets if isinstance(st, ast.Assign) else []
+            for t in tgts:
+                if isinstance(t, ast.Attribute) and t.attr == 'print_guess':
+                    n += 1
+                    if not (q.endswith('PcfgGrammar.save_to_file') and U(st.value) == 'self.write_guess_to_file'):
+                        ok = False
+                        ctx.bad(rule, q, 'the output point is re-bound: ' + U(st)[:70], 'every emitter counts a guess next to its print_guess call; '
+                                'a wrapper that drops or rewrites guesses makes the counts (and --limit / --size) disagree with what is written',
+                                None, st, firm=True)
+    for rel, m in ctx.repo.modules.items():
+        if rel.startswith('lib_guesser/') or rel in ('pcfg_guesser.py', 'prince_ling.py'):
+            for x in ast.walk(m.tree):
+                if isinstance(x, ast.Constant) and isinstance(x.value, str) and 'raw_grammar' in x.value \
+                        and not isinstance(m.parents.get(id(x)), ast.Expr):
+                    ok = False
+                    ctx.bad(rule, rel, 'the guesser names ' + repr(x.value), 'base structures are read from <folder>/grammar.txt only: raw_grammar.txt is '
+                            'the unfiltered list (e-mail / website structures, and everything edit_rules removed)', None, x, firm=True)
+    if ctx.floor(rule, 'repository', n, 6, 'memo writers / read_password calls / output re-bindings') and ok:
+        ctx.ok(rule, 'repository', 'memo written by _fill_out_parse_tree only, print_guess re-bound by save_to_file only, read_password() only as '
+               'a loop iterable, raw_grammar.txt not named by the guesser (%d sites)' % n)
+
+
+_MUT_METHODS = {'append', 'extend', 'insert', 'remove', 'pop', 'clear', 'sort', 'reverse', 'add', 'discard', 'update', 'setdefault', 'popitem',
+                'subtract', 'appendleft', 'popleft', '__iadd__', '__ior__'}
+_INPLACE_FUNCS = {'iadd', 'operator.iadd', 'ior', 'operator.ior', 'iconcat', 'operator.iconcat', 'isub', 'operator.isub', 'iand', 'operator.iand'}
+
+
+def read_only_helpers(ctx, rule):
+    """Two helpers that only LOOK at what they are given:
+
+      * interesting_keyboard(combo) answers yes / no: it does not change the run it judges (seed C05-eb deleted a leading 'e' from the
+        caller's list in place - the caller then labels a three-key run K3 without re-checking the minimum length);
+      * print_statistics(pcfg_parser) prints: it does not change the counters the ruleset is written from afterwards (seed C06-ea
+        merged the per-length keyboard counters with reduce(operator.iadd, ..) - the first length class absorbed all the others).
+
+    Checked: no mutating method call, subscript / attribute store, del, augmented assignment or in-place operator function on an
+    object reached from the parameter."""
+    ok = True
+    n = 0
+    for q in ('lib_trainer/detection_rules/keyboard_walk.py::interesting_keyboard', 'lib_trainer/print_statistics.py::print_statistics'):
+        try:
+            fn = ctx.fn(q)
+        except Exception:       # noqa: BLE001
+            continue
+        ctx.stats['functions'].add(q)
+        ps = set(params(fn))
+        # locals that alias (parts of) the parameters: bound from an expression rooted at a parameter without a call that copies
+        roots = set(ps)
+        changed = True
+        while changed:
+            changed = False
+            for st in walk_local(fn):
+                if isinstance(st, ast.Assign) and len(st.targets) == 1 and isinstance(st.targets[0], ast.Name) and st.targets[0].id not in roots:
+                    v = st.value
+                    base = v
+                    while isinstance(base, (ast.Attribute, ast.Subscript)):
+                        base = base.value
+                    if isinstance(base, ast.Name) and base.id in roots and not isinstance(v, ast.Name) is False or \
+                            (isinstance(v, (ast.Attribute, ast.Subscript)) and isinstance(base, ast.Name) and base.id in roots):
+                        roots.add(st.targets[0].id)
+                        changed = True
+
+        def rooted(e):
+            while isinstance(e, (ast.Attribute, ast.Subscript)):
+                e = e.value
+            if isinstance(e, ast.Call) and isinstance(e.func, ast.Attribute) and e.func.attr in ('values', 'items', 'keys'):
+                return rooted(e.func.value)
+            return isinstance(e, ast.Name) and e.id in roots
+        for x in walk_local(fn):
+            hit = None
+            if isinstance(x, ast.Call) and isinstance(x.func, ast.Attribute) and x.func.attr in _MUT_METHODS and rooted(x.func.value):
+                hit = x
+            elif isinstance(x, ast.Call) and (call_name(x) in _INPLACE_FUNCS) and x.args and rooted(x.args[0]):
+                hit = x
+            elif isinstance(x, ast.Call) and call_name(x) in ('reduce', 'functools.reduce') and x.args and (U(x.args[0]) in _INPLACE_FUNCS) \
+                    and len(x.args) >= 2 and rooted(x.args[1]) and len(x.args) == 2:
+                hit = x         # without an initial value the first element itself is the accumulator
+            elif isinstance(x, ast.Delete) and any(rooted(t) and not isinstance(t, ast.Name) for t in x.targets):
+                hit = x
+            elif isinstance(x, (ast.Assign, ast.AugAssign)):
+                tg = x.targets if isinstance(x, ast.Assign) else [x.target]
+                if any(isinstance(t, (ast.Subscript, ast.Attribute)) and rooted(t) for t in tg):
+                    hit = x
+            if hit is not None:
+                ok = False
+                ctx.bad(rule, q, 'the argument is changed in place: ' + U(hit)[:70], 'this helper only inspects what it is given; its caller goes on '
+                        'using the same object', None, hit, firm=True)
+        n += 1
+    if ctx.floor(rule, 'helpers', n, 2, 'read-only helpers') and ok:
+        ctx.ok(rule, 'helpers', 'interesting_keyboard and print_statistics do not modify their arguments')
+
+
+def terminals_stored_as_read(ctx, rule):
+    """The guesser's terminal loader stores every value exactly as the file has it: whatever the options, no case mapping,
+    stripping or normalisation of a loaded value (the one place --all_lower acts is the capitalisation MASK list, which is replaced by
+    all-'L' masks).  Seeds C14-eb / C16-eb lower-cased the keyboard-walk (and context) terminals under --all_lower: '1QAZ' collapses
+    onto '1qaz', which is then emitted twice, and words no derivation of the ruleset yields appear."""
+    ok = True
+    n = 0
+    case_methods = {'lower', 'upper', 'casefold', 'title', 'capitalize', 'swapcase', 'strip', 'lstrip'}
+    for q in ('lib_guesser/grammar_io.py::_load_from_file', 'lib_guesser/grammar_io.py::_load_terminals', 'lib_guesser/grammar_io.py::_load_from_multiple_files'):
+        try:
+            fn = ctx.fn(q)
+        except Exception:       # noqa: BLE001
+            continue
+        ctx.stats['functions'].add(q)
+        n += 1
+        for x in walk_local(fn):
+            if isinstance(x, ast.Call) and isinstance(x.func, ast.Attribute) and x.func.attr in case_methods and not x.args:
+                recv = U(x.func.value)
+                if x.func.attr in ('strip', 'lstrip') and ('line' in recv or recv in ('value',)) and q.endswith('_load_from_file') and False:
+                    continue
+                if x.func.attr in ('strip', 'lstrip'):
+                    continue        # what is stripped from a LINE is C07.R5's question
+                ok = False
+                ctx.bad(rule, q, 'a loaded value is re-cased: ' + U(x)[:60], 'terminals are stored as read: --all_lower replaces the capitalisation '
+                        'masks, it does not touch digits / keyboard walks / other terminals (an upper-case walk is a different terminal)', None, x, firm=True)
+    if ctx.floor(rule, 'lib_guesser/grammar_io.py', n, 3, 'terminal loader functions') and ok:
+        ctx.ok(rule, 'lib_guesser/grammar_io.py', 'no case mapping of loaded values in the terminal loaders')
